@@ -61,7 +61,7 @@ def md(name, mode, npts, cmax, eps=1, epsrec=1, exact=True, tiers=Q, timeout=900
 
 def dyn(name, mode, nbulk, nops, kmax=5, vmax=3, base=2, bufl=1, idxl=2, eps=1, epsrec=1, tiers=Q, timeout=900):
     d = dict(DMODE=mode, NBULK=nbulk, MAXBULK=max(nbulk, 1), NOPS=nops, KMAX=kmax, VMAX=vmax, BASE=base, BUFL=bufl, IDXL=idxl, EPS=eps, EPSREC=epsrec,
-             MAXOUT=kmax + 1, VERIF_VEC_CAP=max(nbulk + nops + 4, 10), VERIF_VECVEC_CAP=32, VERIF_SET_CAP=kmax + 2)
+             MAXOUT=kmax + 1, VERIF_VEC_CAP=max(nbulk + nops + 4, 10), VERIF_VECVEC_CAP=36, VERIF_SET_CAP=kmax + 2)
     return dict(name=name, unit='dyn.cpp', harness='h_dyn.c', defs=d, narrow=16, timeout=timeout, tiers=tiers,
                 bounds=['find/count/lower_bound', 'begin()..end() traversal', 'LSM invariants', 'size/empty/range', 'traversal from lower_bound'][mode] + ' after a bulk-load of %d sorted pairs then every history of %d insert_or_assign/erase operations over keys 0..%d and values 0..%d; '
                        'base=%d, buffer_level=%d (buffer of %d), index_level=%d (levels >= %d carry a PGM-index with Epsilon=%d); all queries afterwards'
@@ -105,4 +105,53 @@ JOBS['C20'] = [e2e('reject_u8_n%d' % n, 'uint8_t', n, 1, 1, extra=dict(ALLOW_SEN
 JOBS['C18'] = [cpgm('cpgm_u32_n2', 'uint32_t', 'uint32', 2), cpgm('cpgm_i32_n2', 'int32_t', 'int32', 2), cpgm('cpgm_u64_n2_null', 'uint64_t', 'uint64', 2, sentinel=True),
                cpgm('cpgm_i64_n3', 'int64_t', 'int64', 3, tiers=T, timeout=3000)]
 
-PROPS = {p: dict(level='model_checking', explanation='', outside=[], assumptions=[]) for p in JOBS}
+E2E_OUT = ['n >= 5 keys end to end (n = 5 ran out of memory at 14 GB)', 'Epsilon > 1 and EpsilonRecursive > 1', 'key types wider than 8 bits end to end (C18 covers 32/64-bit keys at n <= 3 through the C interface)',
+           'floating-point keys, double slopes', 'real OpenMP execution of the chunks (the chunk loop is run sequentially through hook H1)',
+           'an off-by-one in the +2 slack of PGM_ADD_EPS is NOT detectable at n <= 4: the range then covers almost the whole array (measured with a hand mutation)']
+MODEL = ['std::vector/std::set replaced by fixed-capacity models (model/verif_std.hpp): reallocation/growth behaviour of the real containers is outside the claim',
+         'a read past size() but inside the model capacity is invisible to CBMC (ASan in the differential/replay run sees it), except where reserve() is modelled exactly']
+
+PROPS = {
+    'C01': dict(level='model_checking', outside=E2E_OUT, assumptions=MODEL,
+                explanation='Real PGMIndex constructor + search() executed symbolically on every sorted array of exactly n uint8_t keys and every non-reserved query.'),
+    'C02': dict(level='model_checking', outside=E2E_OUT, assumptions=MODEL,
+                explanation='Same jobs as C01 (the harness asserts that the global lower bound lies in [lo,hi] for present and absent queries alike) plus the chunk-seam driver job of C03.'),
+    'C03': dict(level='model_checking', outside=['more than 4 points per segment', 'floating-point keys', '64-bit coordinates', 'more than 2 chunks'], assumptions=MODEL,
+                explanation='Real add_point/get_segment on k symbolic points against an exact integer oracle; real make_segmentation_par (sequential and 2 chunks via hook) on exact-n arrays, '
+                            'with the points the builder must cover re-derived in the harness.'),
+    'C04': dict(level='model_checking', outside=['keys beyond 0..15 (quick) / 0..63 (thorough) for the maximality oracle: the full 8-bit version gave no verdict in 900 s',
+                                                 'the step from per-segment maximality to a minimal segment count is the standard greedy-exchange argument (written, trusted)'], assumptions=MODEL,
+                explanation='A point is rejected by the real add_point only if an independent feasibility oracle (lines through two constraint points) finds no line fitting it together with the '
+                            'current segment; count bound asserted in the e2e and driver jobs.'),
+    'C05': dict(level='model_checking', outside=['default buffer_level (buffer of 585)', 'class-typed values', 'histories longer than NOPS', 'bulk-loads in the quick tier'], assumptions=MODEL,
+                explanation='Real DynamicPGMIndex<uint8_t,uint8_t,PGMIndex<uint8_t,1,1>>(base 2, buffer_level 1): every history of NOPS updates over keys 0..5, then find/count/lower_bound against an array map.'),
+    'C06': dict(level='model_checking', outside=['default buffer_level', 'class-typed values', 'histories longer than NOPS'], assumptions=MODEL,
+                explanation='Same container; traversal from begin() and from lower_bound(k), range(lo,hi), size(), empty() against the array map; one job per query group.'),
+    'C07': dict(level='model_checking', outside=E2E_OUT + ['at n <= 4 upper levels hold one or two segments: a weak instance of the routing bound'], assumptions=MODEL,
+                explanation='The segment_for_key hook records the largest distance between the chosen segment and the predicted position; asserted <= EpsilonRecursive+1 in the e2e jobs with a recursive level.'),
+    'C11': dict(level='model_checking', outside=['file/mmap layer (data pointer aimed at the array through the accessor hook)', 'n > 3', 'Epsilon > 1'], assumptions=MODEL,
+                explanation='Real MappedPGMIndex::lower_bound/upper_bound/count/contains/begin/end/size on exact-n arrays with every duplicate structure against the std algorithms.'),
+    'C13': dict(level='model_checking', outside=['more than 4 points', 'coordinates > 3', 'Dimensions 3 and 4, uint64_t', 'the default miss_threshold of 64 (hooked to 0/1 so that the bigmin jump runs)'], assumptions=MODEL,
+                explanation='Real MultidimensionalPGMIndex<2,uint32_t,1> constructor and range() iterated to end(): count, multiplicity, in-box, Morton order, termination.'),
+    'C14': dict(level='model_checking', outside=['more than 2 points', 'coordinates > 3', 'Dimensions 3 and 4, uint64_t'], assumptions=MODEL,
+                explanation='Real constructor and contains(p) for every stored multiset and every query point in bounds.'),
+    'C15': dict(level='model_checking', outside=['histories longer than NOPS', 'default buffer_level'], assumptions=MODEL,
+                explanation='After every history of NOPS updates the accessor hook reads the private levels: sorted, within capacity, nothing beyond used_levels, index present over exactly the level keys / reset.'),
+    'C16': dict(level='other', outside=['no thread schedule is explored (this family cannot)', 'only PGMIndex::search is covered'], assumptions=MODEL,
+                explanation='Frame condition: a data race needs a write. The wrapper snapshots every byte the index owns, runs search() twice and asserts bit-identity and equal results for all inputs in bounds; '
+                            'no write to shared state on any input means no schedule of readers has a race and each call returns what it returns alone.'),
+    'C18': dict(level='model_checking', outside=['n > 3', 'key spread > 200 around the symbolic base', 'the dynamic_pgm_index_* functions'], assumptions=MODEL,
+                explanation='The real c-interface/cpgm.cpp compiled into the unit: create/search/destroy with a run-time epsilon symbolic in 1..3, NULL on the reserved value.'),
+    'C20': dict(level='model_checking', outside=['DynamicPGMIndex rejections (unsorted bulk-load, base, tombstone value, lo > hi), coordinate-width check: not claimed yet'], assumptions=MODEL,
+                explanation='Data whose last key is the reserved value is rejected with std::invalid_argument, and only such data (e2e jobs with the sentinel allowed); add_point with a non-increasing key throws logic_error.'),
+}
+for p in JOBS: PROPS.setdefault(p, dict(level='model_checking', explanation='', outside=[], assumptions=MODEL))
+
+# C17: the memory-safety obligations (SAFETY class) of one job per unit; boundary sizes n = 1, 2, 3 on purpose
+JOBS['C17'] = [JOBS['C01'][0], JOBS['C01'][2], JOBS['C14'][0], JOBS['C13'][0], JOBS['C13'][1], JOBS['C05'][0], JOBS['C06'][0], JOBS['C06'][1], JOBS['C11'][0],
+               JOBS['C18'][0]]
+PROPS['C17'] = dict(level='model_checking', assumptions=MODEL,
+                    outside=['sdsl-backed classes (Compressed, Elias-Fano, Bucketing)', 'the mmap/file layer', 'sizes beyond the per-job bounds',
+                             'reads past size() but inside the model capacity (see assumptions)'],
+                    explanation='CBMC pointer-dereference, bounds, deallocated/dead-object, division-by-zero and shift checks on every memory access of the translated real code, '
+                                'for all inputs inside the bounds of one job per unit (static index, C interface, multidimensional contains/range, dynamic queries and traversal, mapped queries).')
